@@ -80,6 +80,7 @@ def forbidden_scan():
         while prev != txt:
             prev = txt
             txt = re.sub(r'\(\*(?:(?!\(\*|\*\)).)*\*\)', ' ', txt, flags=re.S)
+        txt = re.sub(r'"(?:[^"]|"")*"', '""', txt)   # string literals cannot declare anything
         for m in FORBIDDEN.finditer(txt):
             hits.append('%s: %s' % (p.relative_to(VERIF), m.group(0)))
     return hits
